@@ -139,7 +139,9 @@ def explore_tb(ctx, pid, judges, cov, failures, quick=60, thorough=1500):
     blocks = pg.alloc_blocks(n)
     cases = []
     for i in range(n):
-        f = pf.tb_history(ctx["rng"], blocks[i])
+        # (a request ROUTED to a backend's address after that backend sent a request of its own is relayed with a Via naming
+        # the local end of the backend's connection - not a configured listener: C06's judge has no reading for that)
+        f = pf.tb_history(ctx["rng"], blocks[i], route_to_backend="proxytb-C06" not in judges)
         cases.append(f.s.case("tb%d" % i, {"kind": "tcp-backends", "backends": len(f.backends)}))
     c2, f2 = explore(ctx, pid, cases, judges,
                      nontrivial=lambda c, ni: any(l.startswith(b"conn:") for outs, _ in ni for l, _ in outs))
